@@ -47,58 +47,12 @@ theorem setInterruptFromExc_sameW (c : Cfg) (k n) : SameW c (setInterruptFromExc
   · exact ⟨rfl, rfl⟩
 theorem hand_sameW (c : Cfg) (i) : SameW c (hand c i) := by
   unfold hand; split <;> exact ⟨rfl, rfl⟩
-theorem interruptState_sameW (c : Cfg) (k) : SameW c (interruptState c k) := by
-  unfold interruptState; split
-  · split <;> exact ⟨rfl, rfl⟩
-  · exact SameW.rfl' c
 theorem doPauseHooks_sameW (c : Cfg) : SameW c (doPauseHooks c) := ⟨rfl, rfl⟩
-theorem deliver_sameW (c : Cfg) (o) : SameW c (deliver c o) := by
-  unfold deliver
-  split
-  · rename_i fn wf wakeup aw hst
-    split
-    · exact ⟨rfl, rfl⟩
-    · split
-      · exact ⟨by simp [hst, SObj.label], rfl, rfl⟩
-      · exact SameW.rfl' c
-    · exact SameW.rfl' c
-  · exact SameW.rfl' c
 
-theorem live_excepted (l : Label) (h : terminal l = false) : Label.excepted ∈ allowed l := by
-  cases l <;> simp_all [terminal, allowed]
-
-theorem edgesOk_cons {a b : Label} {rest : List Label} (h : edgesOk (a :: rest) = true) (hab : b ∈ allowed a) :
-    edgesOk (b :: a :: rest) = true := by
-  simp [edgesOk, hab, h]
-
-end PMF
-
-namespace PMF
-
-theorem exitState_sameW (c : Cfg) : SameW c (exitState c) := by
+theorem exitState_st (c : Cfg) : (exitState c).st = c.st := by
   unfold exitState; split
-  · split <;> exact ⟨rfl, rfl⟩
-  · exact SameW.rfl' c
-
-theorem freshFut_sameW (c : Cfg) : SameW c (freshFutIfCancelled c) := by
-  unfold freshFutIfCancelled; split <;> exact ⟨rfl, rfl⟩
-
-theorem setFutExc_sameW (c : Cfg) (e) : SameW c (setFutExc c e) := by
-  unfold setFutExc; split <;> exact ⟨rfl, rfl⟩
-
-theorem enteringHooks_sameW (c c2 : Cfg) (s : SObj) (h : enteringHooks c s = .ok c2) : SameW c c2 := by
-  unfold enteringHooks at h
-  split at h
-  · dsimp only at h
-    split at h
-    · cases h; exact SameW.trans (freshFut_sameW c) ⟨rfl, rfl⟩
-    · cases h
-  · dsimp only at h
-    split at h
-    · cases h; exact SameW.trans (freshFut_sameW c) ⟨rfl, rfl⟩
-    · cases h
-  · cases h; exact setFutExc_sameW c _
-  · cases h; exact SameW.rfl' c
+  · dsimp only; split <;> rfl
+  · rfl
 
 theorem enterState_sameW (c : Cfg) (s : SObj) : SameW c (enterState c s) := by
   unfold enterState; split
@@ -120,90 +74,203 @@ theorem enterState_sameW (c : Cfg) (s : SObj) : SameW c (enterState c s) := by
     exact this aw c0 (SameW.rfl' c0)
   · exact SameW.rfl' c
 
+theorem freshFut_sameW (c : Cfg) : SameW c (freshFutIfCancelled c) := by
+  unfold freshFutIfCancelled; split <;> exact ⟨rfl, rfl⟩
+theorem setFutExc_sameW (c : Cfg) (e) : SameW c (setFutExc c e) := by
+  unfold setFutExc; split <;> exact ⟨rfl, rfl⟩
+theorem enteringHooks_sameW (c c2 : Cfg) (s : SObj) (h : enteringHooks c s = .ok c2) : SameW c c2 := by
+  unfold enteringHooks at h
+  split at h
+  · dsimp only at h
+    split at h
+    · cases h; exact SameW.trans (freshFut_sameW c) ⟨rfl, rfl⟩
+    · cases h
+  · dsimp only at h
+    split at h
+    · cases h; exact SameW.trans (freshFut_sameW c) ⟨rfl, rfl⟩
+    · cases h
+  · cases h; exact setFutExc_sameW c _
+  · cases h; exact SameW.rfl' c
 theorem enteredHooks_sameW (c : Cfg) (s : SObj) : SameW c (enteredHooks c s) := by
   unfold enteredHooks
   split <;> split <;> exact ⟨rfl, rfl⟩
-
-theorem onClose_invB (c : Cfg) (h : InvB c) (ht : terminal c.st.label = true) : InvB (onClose c) := by
-  unfold onClose; split
-  · exact h
-  · exact ⟨h.chain, h.head, fun _ => ht⟩
-
 theorem releasePause_sameW (c : Cfg) : SameW c (releasePause c) := by
   unfold releasePause; split
   · split <;> exact ⟨rfl, rfl⟩
   · exact SameW.rfl' c
+theorem onClose_sameW (c : Cfg) : SameW c (onClose c) := by
+  unfold onClose; split <;> exact ⟨rfl, rfl⟩
+theorem onTerminated_sameW (c : Cfg) : SameW c (onTerminated c) := by
+  unfold onTerminated; exact SameW.trans (releasePause_sameW c) (onClose_sameW _)
 
-/-- entering a terminal state: the stepper is released and the process is closed -/
-theorem onTerminated_invB (c : Cfg) (h : InvB c) (ht : terminal c.st.label = true) : InvB (onTerminated c) := by
-  unfold onTerminated
-  have hs := releasePause_sameW c
-  exact onClose_invB _ (h.sameW hs) (by rw [hs.1]; exact ht)
+/-- a state that is not WAITING satisfies the barrier invariant trivially -/
+theorem invB_of_not_waiting {c : Cfg} (h : ∀ fn wf wk aw, c.st ≠ .waiting fn wf wk aw) : InvB c := by
+  intro fn wf wk aw hst; exact absurd hst (h fn wf wk aw)
 
-/-- assigning an allowed next state keeps the invariant (the process is not closed while live) -/
-theorem setState_invB (c : Cfg) (s : SObj) (h : InvB c) (hin : s.label ∈ allowed c.st.label)
-    (hnc : c.closed = false) : InvB (setState c s) := by
-  refine ⟨?_, by simp [setState], by simp [setState, hnc]⟩
-  cases hent : c.entered with
-  | nil => have := h.head; simp [hent] at this
-  | cons a rest =>
-    have hh := h.head; simp [hent] at hh; subst hh
-    have hc := h.chain; rw [hent] at hc
-    simp only [setState, hent]
-    exact edgesOk_cons hc hin
-
-theorem not_closed_of_live {c : Cfg} (h : InvB c) (hl : terminal c.st.label = false) : c.closed = false := by
-  cases hc : c.closed with
-  | false => rfl
-  | true => have := h.closedTerm hc; simp [hl] at this
-
-theorem forceExcepted_invB (c : Cfg) (e : Exc) (h : InvB c) (hl : terminal c.st.label = false) :
-    InvB (forceExcepted c e) := by
-  have hnc := not_closed_of_live h hl
+theorem forceExcepted_invB (c : Cfg) (e : Exc) : InvB (forceExcepted c e) := by
+  apply invB_of_not_waiting
+  intro fn wf wk aw
   unfold forceExcepted
-  simp only [hnc, Bool.false_eq_true, if_false]
-  have hs := setFutExc_sameW c e
-  have h1 : InvB (setState (setFutExc c e) (.excepted e)) :=
-    setState_invB _ _ (h.sameW hs) (by rw [hs.1]; exact live_excepted _ hl) (by rw [hs.2.2]; exact hnc)
-  apply onTerminated_invB _ (h1.sameW (enteredHooks_sameW _ _))
-  rw [(enteredHooks_sameW _ _).1]; simp [setState, SObj.label, terminal, allowed]
-
-theorem enterNext_invB (c : Cfg) (s : SObj) (h : InvB c) (hin : s.label ∈ allowed c.st.label)
-    (hnc : c.closed = false) : InvB (enterNext c s) := by
-  unfold enterNext
-  have he := enterState_sameW c s
-  have h1 : InvB (setState (enterState c s) s) :=
-    setState_invB _ _ (h.sameW he) (by rw [he.1]; exact hin) (by rw [he.2.2]; exact hnc)
-  have h2 := h1.sameW (enteredHooks_sameW _ s)
-  dsimp only
   split
-  · rename_i ht
-    apply onTerminated_invB _ h2
-    rw [(enteredHooks_sameW _ s).1]; simpa [setState] using ht
-  · exact h2
+  · intro h; cases h
+  · rw [(onTerminated_sameW _).1, (enteredHooks_sameW _ _).1]; intro h; cases h
 
-theorem transitionTo_invB (c : Cfg) (s : SObj) (h : InvB c) (hl : terminal c.st.label = false) :
-    InvB (transitionTo c s) := by
-  have hnc := not_closed_of_live h hl
+/-- the target of a transition is *fresh*: if it is a WAITING state, its future is pending, nothing is parked, and its
+index differs from the one of the state being left -/
+def Fresh (c : Cfg) (s : SObj) : Prop :=
+  ∀ fn wf wk aw, s = .waiting fn wf wk aw →
+    c.wfs[wf]? = some .pending ∧ wk = none ∧ ∀ f' wf' wk' aw', c.st = .waiting f' wf' wk' aw' → wf' ≠ wf
+
+theorem fresh_of_not_waiting (c : Cfg) (s : SObj) (h : ∀ fn wf wk aw, s ≠ .waiting fn wf wk aw) : Fresh c s := by
+  intro fn wf wk aw hs; exact absurd hs (h fn wf wk aw)
+
+/-- `exitState` touches the waiting future of the state being left only -/
+theorem exitState_wfs_other (c : Cfg) (j : Nat) (hj : ∀ f' wf' wk' aw', c.st = .waiting f' wf' wk' aw' → wf' ≠ j) :
+    (exitState c).wfs[j]? = c.wfs[j]? := by
+  unfold exitState; split
+  · rename_i f' wf' wk' aw' hst
+    dsimp only
+    split
+    · have : wf' ≠ j := hj _ _ _ _ hst
+      simp [setAt, List.getElem?_set, this]
+    · rfl
+  · rfl
+
+theorem exitState_wfs_len (c : Cfg) : (exitState c).wfs.length = c.wfs.length := by
+  unfold exitState; split
+  · dsimp only; split
+    · simp [setAt]
+    · rfl
+  · rfl
+
+/-- installing a fresh state `s` over a configuration whose waiting futures are those of `c1` -/
+theorem invB_install (d : Cfg) (s : SObj) (hst : d.st = s)
+    (hfr : ∀ fn wf wk aw, s = .waiting fn wf wk aw → d.wfs[wf]? = some .pending ∧ wk = none) : InvB d := by
+  intro fn wf wk aw h
+  rw [hst] at h
+  obtain ⟨hp, hw⟩ := hfr fn wf wk aw h
+  refine ⟨(List.getElem?_eq_some_iff.mp hp).1, ?_⟩
+  intro hpre
+  rcases hpre with g | g
+  · rw [hp] at g; simp [isResult] at g
+  · rw [hw] at g; simp at g
+
+theorem enterNext_invB (c : Cfg) (s : SObj)
+    (hfr : ∀ fn wf wk aw, s = .waiting fn wf wk aw → c.wfs[wf]? = some .pending ∧ wk = none) : InvB (enterNext c s) := by
+  unfold enterNext
+  dsimp only
+  have hW : SameW c (enterState c s) := enterState_sameW c s
+  have h1 : (enteredHooks (setState (enterState c s) s) s).st = s := by rw [(enteredHooks_sameW _ _).1]; rfl
+  have h2 : (enteredHooks (setState (enterState c s) s) s).wfs = c.wfs := by
+    rw [(enteredHooks_sameW _ _).2]; show (enterState c s).wfs = c.wfs; exact hW.2
+  split
+  · apply invB_install _ s (by rw [(onTerminated_sameW _).1]; exact h1)
+    intro fn wf wk aw hs; rw [(onTerminated_sameW _).2, h2]; exact hfr fn wf wk aw hs
+  · apply invB_install _ s h1
+    intro fn wf wk aw hs; rw [h2]; exact hfr fn wf wk aw hs
+
+theorem transitionTo_invB (c : Cfg) (s : SObj) (hf : Fresh c s) : InvB (transitionTo c s) := by
+  have hfr1 : ∀ fn wf wk aw, s = .waiting fn wf wk aw → (exitState c).wfs[wf]? = some .pending ∧ wk = none := by
+    intro fn wf wk aw hs
+    obtain ⟨hp, hw, hne⟩ := hf fn wf wk aw hs
+    exact ⟨by rw [exitState_wfs_other c wf hne]; exact hp, hw⟩
   unfold transitionTo
   split
-  · rename_i hin
-    simp only [hnc, Bool.false_eq_true, if_false]
-    have hex := exitState_sameW c
+  · dsimp only
     split
-    · rename_i e _
-      exact forceExcepted_invB _ e (h.sameW hex) (by rw [hex.1]; exact hl)
-    · rename_i c2 hok
-      have h2 : SameW c c2 := SameW.trans hex (enteringHooks_sameW _ _ _ hok)
-      exact enterNext_invB c2 s (h.sameW h2) (by rw [h2.1]; exact hin) (by rw [h2.2.2]; exact hnc)
-  · exact forceExcepted_invB _ _ h hl
+    · apply invB_install _ s rfl
+      intro fn wf wk aw hs; exact hfr1 fn wf wk aw hs
+    · split
+      · exact forceExcepted_invB _ _
+      · rename_i c2 hok
+        have hW := enteringHooks_sameW _ c2 s hok
+        apply enterNext_invB
+        intro fn wf wk aw hs; rw [hW.2]; exact hfr1 fn wf wk aw hs
+  · exact forceExcepted_invB _ _
+
+theorem interruptState_invB (c : Cfg) (k : Nat) (h : InvB c) : InvB (interruptState c k) := by
+  unfold interruptState
+  split
+  · rename_i fn wf wk aw hst
+    split
+    · rename_i hp
+      intro fn' wf' wk' aw' hst'
+      have hst'' : c.st = .waiting fn' wf' wk' aw' := hst'
+      rw [hst] at hst''; cases hst''
+      obtain ⟨hlt, himp⟩ := h fn wf wk aw hst
+      refine ⟨by simpa [setAt] using hlt, ?_⟩
+      intro hpre
+      apply himp
+      rcases hpre with g | g
+      · simp [setAt, List.getElem?_set, hlt, isResult] at g
+      · exact Or.inr g
+    · exact h
+  · exact h
+
+theorem deliver_invB (c : Cfg) (o : WF) (h : InvB c)
+    (hempty : isResult o = true → ∀ fn wf wk aw, c.st = .waiting fn wf wk aw → aw = []) : InvB (deliver c o) := by
+  unfold deliver
+  split
+  · rename_i fn wf wk aw hst
+    obtain ⟨hlt, himp⟩ := h fn wf wk aw hst
+    split
+    · intro fn' wf' wk' aw' hst'
+      have hst'' : c.st = .waiting fn' wf' wk' aw' := hst'
+      rw [hst] at hst''; cases hst''
+      refine ⟨by simpa [setAt] using hlt, ?_⟩
+      intro hpre
+      rcases hpre with g | g
+      · have : isResult o = true := by simpa [setAt, List.getElem?_set, hlt] using g
+        exact hempty this fn wf wk aw hst
+      · exact himp (Or.inr g)
+    · split
+      · intro fn' wf' wk' aw' hst'
+        have hst'' : SObj.waiting fn wf (some o) aw = .waiting fn' wf' wk' aw' := hst'
+        cases hst''
+        refine ⟨hlt, ?_⟩
+        intro hpre
+        rcases hpre with g | g
+        · exact himp (Or.inl g)
+        · have : isResult o = true := by simpa using g
+          exact hempty this fn wf wk aw hst
+      · exact h
+    · exact h
+  · exact h
+
+theorem cmdToState_invB (c : Cfg) (cmd : Cmd) (h : InvB c) : InvB (cmdToState c cmd).1 := by
+  have happ : InvB { c with wfs := c.wfs ++ [WF.pending] } := by
+    intro fn wf wk aw hst
+    obtain ⟨hlt, himp⟩ := h fn wf wk aw hst
+    refine ⟨by simp; omega, ?_⟩
+    intro hpre; apply himp
+    simpa [List.getElem?_append_left hlt] using hpre
+  unfold cmdToState; split <;> first | exact h | exact happ
+
+theorem cmdToState_fresh (c : Cfg) (cmd : Cmd) (h : InvB c) : Fresh (cmdToState c cmd).1 (cmdToState c cmd).2 := by
+  have key : ∀ fn aw, Fresh { c with wfs := c.wfs ++ [WF.pending] } (.waiting fn c.wfs.length none aw) := by
+    intro fn aw fn' wf wk aw' hs
+    cases hs
+    refine ⟨by simp, rfl, ?_⟩
+    intro f' wf' wk' aw'' hst
+    have := (h f' wf' wk' aw'' hst).1
+    omega
+  unfold cmdToState; split
+  · exact fresh_of_not_waiting _ _ (by intro _ _ _ _ h; cases h)
+  · exact key _ _
+  · exact key _ _
+  · exact fresh_of_not_waiting _ _ (by intro _ _ _ _ h; cases h)
+  · exact fresh_of_not_waiting _ _ (by intro _ _ _ _ h; cases h)
 
 end PMF
 
 namespace PMF
 
-/-- a step of the model either keeps the invariant-relevant part, or is reached from a live state -/
-theorem runAction_invB (c : Cfg) (i : Nat) (next : Option SObj) (h : InvB c) (hl : terminal c.st.label = false) :
+theorem Fresh.sameW {c c' : Cfg} {s : SObj} (h : Fresh c s) (w : SameW c c') : Fresh c' s := by
+  intro fn wf wk aw hs
+  obtain ⟨a, b, d⟩ := h fn wf wk aw hs
+  exact ⟨by rw [w.2]; exact a, b, by intro f' wf' wk' aw' hst; rw [w.1] at hst; exact d f' wf' wk' aw' hst⟩
+
+theorem runAction_invB (c : Cfg) (i : Nat) (next : Option SObj) (h : InvB c) (hf : ∀ s, next = some s → Fresh c s) :
     InvB (runAction c i next) := by
   unfold runAction
   split
@@ -213,8 +280,9 @@ theorem runAction_invB (c : Cfg) (i : Nat) (next : Option SObj) (h : InvB c) (hl
     · split
       · cases next with
         | none => exact (h.sameW (doPauseHooks_sameW c)).sameW (setActionStatus_sameW ..)
-        | some s => exact ((transitionTo_invB c s h hl).sameW (doPauseHooks_sameW _)).sameW (setActionStatus_sameW ..)
-      · exact ((transitionTo_invB c .killed h hl).sameW ⟨rfl, rfl⟩).sameW (setActionStatus_sameW ..)
+        | some s => exact ((transitionTo_invB c s (hf s rfl)).sameW (doPauseHooks_sameW _)).sameW (setActionStatus_sameW ..)
+      · exact ((transitionTo_invB c .killed (fresh_of_not_waiting _ _ (by intro _ _ _ _ h; cases h))).sameW ⟨rfl, rfl⟩).sameW
+          (setActionStatus_sameW ..)
 
 theorem prepare_sameW (c : Cfg) (r : StepEnd) : SameW c (prepare c r).1 := by
   unfold prepare
@@ -226,50 +294,78 @@ theorem prepare_sameW (c : Cfg) (r : StepEnd) : SameW c (prepare c r).1 := by
     · exact setInterruptFromExc_sameW ..
   · exact setInterrupt_sameW ..
 
-theorem dispatch_invB (c : Cfg) (next : Option SObj) (h : InvB c) : InvB (dispatch c next) := by
+theorem prepare_next (c : Cfg) (r : StepEnd) (s : SObj) (h : (prepare c r).2 = some s) :
+    r = .next (some s) ∨ (∀ fn wf wk aw, s ≠ .waiting fn wf wk aw) := by
+  unfold prepare at h
+  split at h
+  · cases h; exact Or.inr (by intro _ _ _ _ h; cases h)
+  · left; simp at h; rw [h]
+  · split at h <;> cases h
+  · cases h; exact Or.inr (by intro _ _ _ _ h; cases h)
+
+theorem dispatch_invB (c : Cfg) (next : Option SObj) (h : InvB c) (hf : ∀ s, next = some s → Fresh c s) :
+    InvB (dispatch c next) := by
   unfold dispatch
   split
   · exact h
-  · rename_i hl
-    have hl' : terminal c.st.label = false := by simpa using hl
-    split
+  · split
     · split
-      · exact runAction_invB c _ next h hl'
+      · exact runAction_invB c _ next h hf
       · cases next with
         | none => exact h
-        | some s => exact transitionTo_invB c s h hl'
+        | some s => exact transitionTo_invB c s (hf s rfl)
     · cases next with
       | none => exact h
-      | some s => exact transitionTo_invB c s h hl'
+      | some s => exact transitionTo_invB c s (hf s rfl)
 
 theorem finally_sameW (c : Cfg) : SameW c (finally_ c) :=
   SameW.trans (⟨rfl, rfl⟩ : SameW c { c with stepping := false }) (setInterrupt_sameW _ _)
 
-theorem endOfStep_invB (c : Cfg) (r : StepEnd) (h : InvB c) : InvB (endOfStep c r) := by
+theorem endOfStep_invB (c : Cfg) (r : StepEnd) (h : InvB c) (hf : ∀ s, r = .next (some s) → Fresh c s) :
+    InvB (endOfStep c r) := by
   unfold endOfStep
-  exact (dispatch_invB _ _ (h.sameW (prepare_sameW c r))).sameW (finally_sameW _)
-
-theorem cmdToState_sameW (c : Cfg) (cmd : Cmd) : SameW c (cmdToState c cmd).1 := by
-  unfold cmdToState; split <;> exact ⟨rfl, rfl⟩
+  have hW := prepare_sameW c r
+  refine (dispatch_invB _ _ (h.sameW hW) ?_).sameW (finally_sameW _)
+  intro s hs
+  rcases prepare_next c r s hs with g | g
+  · exact (hf s g).sameW hW
+  · exact fresh_of_not_waiting _ _ g
 
 theorem finishUser_invB (c : Cfg) (o : Outcome) (h : InvB c) : InvB (finishUser c o) := by
   unfold finishUser
   split
-  · exact endOfStep_invB _ _ (h.sameW (cmdToState_sameW ..))
-  · exact endOfStep_invB _ _ h
+  · rename_i cmd
+    refine endOfStep_invB _ _ (cmdToState_invB c cmd h) ?_
+    intro s hs; cases hs; exact cmdToState_fresh c cmd h
+  · refine endOfStep_invB _ _ h ?_
+    intro s hs; cases hs; exact fresh_of_not_waiting _ _ (by intro _ _ _ _ h; cases h)
 
 theorem wake_invB (c : Cfg) (fn wf : Nat) (w : WF) (h : InvB c) : InvB (wake c fn wf w) := by
   unfold wake
   split
-  · exact endOfStep_invB _ _ h
-  · apply endOfStep_invB
+  · refine endOfStep_invB _ _ h ?_
+    intro s hs; cases hs; exact fresh_of_not_waiting _ _ (by intro _ _ _ _ h; cases h)
+  · refine endOfStep_invB _ _ ?_ (by intro s hs; cases hs)
     split
     · rename_i f wf' wakeup aw hst
       split
-      · exact h.sameW ⟨by simp [hst, SObj.label], rfl, rfl⟩
+      · -- re-arm: fresh future holding the parked outcome
+        obtain ⟨hlt, himp⟩ := h f wf' wakeup aw hst
+        intro fn' wf'' wk' aw' hst'
+        have hst'' : SObj.waiting f c.wfs.length none aw = .waiting fn' wf'' wk' aw' := hst'
+        cases hst''
+        refine ⟨by simp, ?_⟩
+        intro hpre
+        apply himp
+        rcases hpre with g | g
+        · right
+          cases wakeup with
+          | none => simp [isResult] at g
+          | some o => simpa using g
+        · simp at g
       · exact h
     · exact h
-  · exact endOfStep_invB _ _ h
+  · refine endOfStep_invB _ _ h (by intro s hs; cases hs)
   · exact h
 
 theorem stepBody_of_loopHeadB (P : Prog) (n : Nat) (hL : ∀ c, InvB c → InvB (loopHead P n c)) :
@@ -279,7 +375,8 @@ theorem stepBody_of_loopHeadB (P : Prog) (n : Nat) (hL : ∀ c, InvB c → InvB 
   have hs : InvB { c with stepping := true } := h.sameW ⟨rfl, rfl⟩
   dsimp only
   split
-  · exact hL _ (endOfStep_invB _ _ hs)
+  · refine hL _ (endOfStep_invB _ _ hs ?_)
+    intro s hs'; cases hs'; exact fresh_of_not_waiting _ _ (by intro _ _ _ _ h; cases h)
   · split
     · exact hL _ (finishUser_invB _ _ (hs.sameW ⟨rfl, rfl⟩))
     · exact hs.sameW ⟨rfl, rfl⟩
@@ -287,7 +384,7 @@ theorem stepBody_of_loopHeadB (P : Prog) (n : Nat) (hL : ∀ c, InvB c → InvB 
     · exact hs.sameW ⟨rfl, rfl⟩
     · exact hL _ (wake_invB _ _ _ _ hs)
     · exact hs
-  · exact hL _ (endOfStep_invB _ _ hs)
+  · exact hL _ (endOfStep_invB _ _ hs (by intro s hs'; cases hs'))
 
 theorem loopHead_invB (P : Prog) : ∀ (fuel : Nat) (c : Cfg), InvB c → InvB (loopHead P fuel c) := by
   intro fuel
@@ -332,14 +429,10 @@ theorem tickStepper_invB (P : Prog) (c : Cfg) (h : InvB c) : InvB (tickStepper P
     · exact h
   · exact h
 
-end PMF
-
-namespace PMF
-
-theorem requestInterrupt_sameW (c : Cfg) (k) : SameW c (requestInterrupt c k) := by
+theorem requestInterrupt_invB (c : Cfg) (k) (h : InvB c) : InvB (requestInterrupt c k) := by
   unfold requestInterrupt
-  exact SameW.trans (SameW.trans (⟨rfl, rfl⟩ : SameW c { c with nextCookie := c.nextCookie + 1 })
-    (setInterruptFromExc_sameW ..)) (interruptState_sameW ..)
+  apply interruptState_invB
+  exact (h.sameW (⟨rfl, rfl⟩ : SameW c { c with nextCookie := c.nextCookie + 1 })).sameW (setInterruptFromExc_sameW ..)
 
 theorem pause_invB (c : Cfg) (h : InvB c) : InvB (pause c).1 := by
   unfold pause
@@ -353,11 +446,11 @@ theorem pause_invB (c : Cfg) (h : InvB c) : InvB (pause c).1 := by
         · exact h
         · split
           · dsimp only
-            have hs : SameW c { requestInterrupt c .pause with pausing := (requestInterrupt c .pause).interrupt } :=
-              SameW.trans (requestInterrupt_sameW c .pause) ⟨rfl, rfl⟩
+            have hs : InvB { requestInterrupt c .pause with pausing := (requestInterrupt c .pause).interrupt } :=
+              (requestInterrupt_invB c .pause h).sameW ⟨rfl, rfl⟩
             split
-            · exact (h.sameW hs).sameW (hand_sameW ..)
-            · exact h.sameW hs
+            · exact hs.sameW (hand_sameW ..)
+            · exact hs
           · exact h.sameW (doPauseHooks_sameW c)
 
 theorem play_invB (c : Cfg) (h : InvB c) : InvB (play c).1 := by
@@ -375,29 +468,21 @@ theorem kill_invB (c : Cfg) (h : InvB c) : InvB (kill c).1 := by
   · exact h
   · split
     · exact h
-    · rename_i hnk hnt
-      have hl : terminal c.st.label = false := by simpa using hnt
-      split
+    · split
       · exact h.sameW (hand_sameW ..)
       · split
         · dsimp only
-          have hs : SameW c { requestInterrupt c .kill with killing := (requestInterrupt c .kill).interrupt } :=
-            SameW.trans (requestInterrupt_sameW c .kill) ⟨rfl, rfl⟩
+          have hs : InvB { requestInterrupt c .kill with killing := (requestInterrupt c .kill).interrupt } :=
+            (requestInterrupt_invB c .kill h).sameW ⟨rfl, rfl⟩
           split
-          · exact (h.sameW hs).sameW (hand_sameW ..)
-          · exact h.sameW hs
-        · exact transitionTo_invB c .killed h hl
-
-theorem resume_invB (c : Cfg) (v) (h : InvB c) : InvB (resume c v).1 := by
-  unfold resume; split
-  · exact h.sameW (deliver_sameW ..)
-  · exact h
+          · exact hs.sameW (hand_sameW ..)
+          · exact hs
+        · exact transitionTo_invB c .killed (fresh_of_not_waiting _ _ (by intro _ _ _ _ h; cases h))
 
 theorem fail_invB (c : Cfg) (e) (h : InvB c) : InvB (fail c e).1 := by
   unfold fail; split
   · exact h
-  · rename_i hnt
-    exact transitionTo_invB c _ h (by simpa using hnt)
+  · exact transitionTo_invB c _ (fresh_of_not_waiting _ _ (by intro _ _ _ _ h; cases h))
 
 theorem cancelFut_invB (c : Cfg) (h : InvB c) : InvB (cancelFut c).1 := by
   unfold cancelFut; split
@@ -422,13 +507,27 @@ theorem awaitableDone_invB (c : Cfg) (f) (h : InvB c) : InvB (awaitableDone c f)
   · rename_i fn wf wakeup aw hst
     split
     · exact hold c h
-    · have h1 : InvB { c with st := .waiting fn wf wakeup (aw.filter (·.1 ≠ f)) } :=
-        h.sameW ⟨by simp [hst, SObj.label], rfl, rfl⟩
+    · -- `f` leaves the awaiting set
+      obtain ⟨hlt, himp⟩ := h fn wf wakeup aw hst
+      have h1 : InvB { c with st := .waiting fn wf wakeup (aw.filter (·.1 ≠ f)) } := by
+        intro fn' wf' wk' aw' hst'
+        have hst'' : SObj.waiting fn wf wakeup (aw.filter (·.1 ≠ f)) = .waiting fn' wf' wk' aw' := hst'
+        cases hst''
+        refine ⟨hlt, ?_⟩
+        intro hpre
+        have := himp hpre
+        rw [this]; rfl
       split
       · split
-        · exact (h1.sameW ⟨rfl, rfl⟩).sameW (deliver_sameW ..)
+        · rename_i hemp
+          refine deliver_invB _ _ (h1.sameW ⟨rfl, rfl⟩) ?_
+          intro _ fn' wf' wk' aw' hst'
+          have hst'' : SObj.waiting fn wf wakeup (aw.filter (·.1 ≠ f)) = .waiting fn' wf' wk' aw' := hst'
+          cases hst''
+          simpa using hemp
         · exact h1.sameW ⟨rfl, rfl⟩
-      · exact h1.sameW (deliver_sameW ..)
+      · refine deliver_invB _ _ h1 ?_
+        intro hr; simp [isResult] at hr
       · exact h1
   · exact hold c h
 
@@ -443,24 +542,25 @@ theorem tickCb_invB (c : Cfg) (cb) (h : InvB c) : InvB (tickCb c cb) := by
       · exact h1
   · exact h
 
-/-- every event preserves the lifecycle invariant -/
-theorem step_invB (P : Prog) (c : Cfg) (ev : Ev) (h : InvB c) : InvB (step P c ev).1 := by
+/-- every event other than an external `resume()` preserves the barrier invariant -/
+theorem step_invB (P : Prog) (c : Cfg) (ev : Ev) (h : InvB c) (hnr : ∀ v, ev ≠ .resume v) : InvB (step P c ev).1 := by
   cases ev <;> simp only [step]
   · exact tickStepper_invB P c h
   · exact tickCb_invB c _ h
   · exact pause_invB c h
   · exact play_invB c h
   · exact kill_invB c h
-  · exact resume_invB c _ h
+  · exact absurd rfl (hnr _)
   · exact fail_invB c _ h
   · exact cancelFut_invB c h
   · exact complete_invB c _ _ h
   · exact h.sameW ⟨rfl, rfl⟩
 
-theorem run_invB (P : Prog) (c0 : Cfg) (evs : List Ev) (h : InvB c0) : InvB (run P c0 evs) := by
+theorem run_invB (P : Prog) (c0 : Cfg) (evs : List Ev) (h : InvB c0) (hnr : ∀ e ∈ evs, ∀ v, e ≠ .resume v) :
+    InvB (run P c0 evs) := by
   induction evs generalizing c0 with
   | nil => exact h
-  | cons e es ih => exact ih _ (step_invB P c0 e h)
-
+  | cons e es ih =>
+    exact ih _ (step_invB P c0 e h (hnr e (by simp))) (fun e' he' => hnr e' (by simp [he']))
 
 end PMF
